@@ -325,7 +325,7 @@ func (c *simCluster) handleFetch(b *simBroker, r *FetchRequest) (encoderWithHead
 	for _, pd := range pend {
 		p, plan, blk := pd.part, pd.plan, pd.blk
 		pt := c.parts[p]
-		ev := kv{"part": int(p), "off": int(blk.fetchOffset), "max": int(blk.maxBytes), "n": pd.n, "broker": int(b.id), "kind": plan.Kind, "ver": int(r.Version)}
+		ev := kv{"part": int(p), "off": int(blk.fetchOffset), "max": int(blk.maxBytes), "n": pd.n, "broker": int(b.idx), "kind": plan.Kind, "ver": int(r.Version)}
 		switch plan.Kind {
 		case "silence":
 			action = "silence"
@@ -348,7 +348,7 @@ func (c *simCluster) handleFetch(b *simBroker, r *FetchRequest) (encoderWithHead
 			continue
 		case plan.Kind == "err":
 			fb.err = KError(plan.Code)
-		case pt.leader != b.id:
+		case pt.leader != b.idx:
 			fb.err = ErrNotLeaderForPartition
 			ev["kind"] = "notleader"
 		case blk.fetchOffset < pt.logStart || blk.fetchOffset > pt.logEnd():
